@@ -10,7 +10,8 @@ CLAIM = {
           'sequence of startElement/characters/literal/comment/endElement/xmlSpacePreserve calls that forms one document '
           'element, closed by __exit__, is accepted by the recogniser; xhtml_stream_wellformed the same for XhtmlStream), '
           'element_decodes (an element with any attribute dictionary and any text is decoded to exactly that name, those '
-          'attribute values and that text), comment_wellformed (whatever string is passed to comment(), the comment written '
+          'attribute values and that text), stream_decodes (whole trees: the decoder reports exactly the events the calls asked for, '
+          'the only admissible difference being newline+spaces immediately before a tag outside mixed content), comment_wellformed (whatever string is passed to comment(), the comment written '
           'is legal), encode_illegal_ref (negation witness for the known finding F13-xml-illegal-char-reference), '
           'rle_xml_roundtrip (the datum/stride/repeat attributes of xml_rle_write expand '
           'to the integer list that was run-length encoded). Proof is the right level for the writer core: the claim is '
